@@ -467,6 +467,10 @@ impl UntypedProgram {
             let meta = struct_def.meta;
             let mut fields = Vec::with_capacity(struct_def.fields.len());
             for (name, ty) in struct_def.fields.iter() {
+                if let Err(e) = expect_const_array_sizes(ty, &|c| const_types.get(c).cloned(), meta)
+                {
+                    errors.extend(e);
+                }
                 match ty.as_concrete_type(&top_level_defs) {
                     Ok(ty) => fields.push((name.clone(), ty)),
                     Err(e) => errors.extend(e),
@@ -484,6 +488,13 @@ impl UntypedProgram {
                     Variant::Tuple(variant_name, variant_fields) => {
                         let mut fields = Vec::with_capacity(variant_fields.len());
                         for field in variant_fields.iter() {
+                            if let Err(e) = expect_const_array_sizes(
+                                field,
+                                &|c| const_types.get(c).cloned(),
+                                meta,
+                            ) {
+                                errors.extend(e);
+                            }
                             match field.as_concrete_type(&top_level_defs) {
                                 Ok(field) => fields.push(field),
                                 Err(e) => errors.extend(e),
@@ -569,7 +580,11 @@ impl UntypedFnDef {
             } else {
                 param_identifiers.insert(param.name.clone());
             }
-            match param.ty.as_concrete_type(top_level_defs) {
+            let param_ty = param.ty.as_concrete_type(top_level_defs).and_then(|ty| {
+                expect_const_array_sizes(&ty, &|c| defs.consts.get(c).cloned().cloned(), self.meta)
+                    .map(|_| ty)
+            });
+            match param_ty {
                 Ok(ty) => {
                     env.let_in_current_scope(
                         param.name.clone(),
@@ -593,7 +608,10 @@ impl UntypedFnDef {
         env.pop();
 
         match body {
-            Ok((mut body, _)) => match self.ty.as_concrete_type(top_level_defs) {
+            Ok((mut body, _)) => match self.ty.as_concrete_type(top_level_defs).and_then(|ty| {
+                expect_const_array_sizes(&ty, &|c| defs.consts.get(c).cloned().cloned(), self.meta)
+                    .map(|_| ty)
+            }) {
                 Ok(ret_ty) => {
                     if let Some(StmtEnum::Expr(ret_expr)) = body.last_mut().map(|s| &mut s.inner) {
                         if let Err(e) = check_type(ret_expr, &ret_ty) {
@@ -679,6 +697,11 @@ impl UntypedStmt {
                     Ok(mut binding) => {
                         if let Some(ty) = ty {
                             let ty = ty.as_concrete_type(top_level_defs)?;
+                            expect_const_array_sizes(
+                                &ty,
+                                &|c| defs.consts.get(c).cloned().cloned(),
+                                meta,
+                            )?;
                             check_type(&mut binding, &ty)?;
                         }
                         let pattern =
@@ -703,6 +726,11 @@ impl UntypedStmt {
                         env.let_in_current_scope(identifier.clone(), (None, Mutability::Mutable));
                         if let Some(ty) = ty {
                             let ty = ty.as_concrete_type(top_level_defs)?;
+                            expect_const_array_sizes(
+                                &ty,
+                                &|c| defs.consts.get(c).cloned().cloned(),
+                                meta,
+                            )?;
                             check_type(&mut binding, &ty)?;
                         }
                         fn constrain_to_i32(binding: &mut Expr<Type>) -> Result<(), TypeErrors> {
@@ -2368,6 +2396,95 @@ fn usefulness(patterns: Vec<PatternStack>, q: PatternStack, defs: &Defs) -> Vec<
             }
         }
         witnesses
+    }
+}
+
+/// Array sizes that are given by name (or by a const expression) must refer to top level
+/// constants of type `usize`, otherwise the size cannot be resolved when the program is compiled.
+fn expect_const_array_sizes(
+    ty: &Type,
+    consts: &dyn Fn(&str) -> Option<Type>,
+    meta: MetaInfo,
+) -> Result<(), TypeErrors> {
+    fn expect_usize_const(
+        name: &str,
+        consts: &dyn Fn(&str) -> Option<Type>,
+        meta: MetaInfo,
+    ) -> Result<(), TypeErrors> {
+        match consts(name) {
+            Some(Type::Unsigned(UnsignedNumType::Usize)) => Ok(()),
+            Some(actual) => {
+                let e = TypeErrorEnum::UnexpectedType {
+                    expected: Type::Unsigned(UnsignedNumType::Usize),
+                    actual,
+                };
+                Err(vec![Some(TypeError::new(e, meta))])
+            }
+            None => {
+                let e = TypeErrorEnum::UnknownIdentifier(name.to_string());
+                Err(vec![Some(TypeError::new(e, meta))])
+            }
+        }
+    }
+    fn expect_usize_const_expr(
+        ConstExpr(expr, _): &ConstExpr,
+        consts: &dyn Fn(&str) -> Option<Type>,
+        meta: MetaInfo,
+    ) -> Result<(), TypeErrors> {
+        match expr {
+            ConstExprEnum::NumUnsigned(
+                _,
+                UnsignedNumType::Usize | UnsignedNumType::Unspecified,
+            ) => Ok(()),
+            ConstExprEnum::ConstExprIdent(name) => expect_usize_const(name, consts, meta),
+            ConstExprEnum::Max(args) | ConstExprEnum::Min(args) => {
+                for arg in args {
+                    expect_usize_const_expr(arg, consts, meta)?;
+                }
+                Ok(())
+            }
+            ConstExprEnum::Add(lhs, rhs) | ConstExprEnum::Sub(lhs, rhs) => {
+                expect_usize_const_expr(lhs, consts, meta)?;
+                expect_usize_const_expr(rhs, consts, meta)
+            }
+            ConstExprEnum::True
+            | ConstExprEnum::False
+            | ConstExprEnum::NumUnsigned(_, _)
+            | ConstExprEnum::NumSigned(_, _)
+            | ConstExprEnum::ExternalValue { .. } => Err(vec![Some(TypeError::new(
+                TypeErrorEnum::UsizeNotLiteral,
+                meta,
+            ))]),
+        }
+    }
+    match ty {
+        Type::ArrayConst(elem, size) => {
+            expect_usize_const(size, consts, meta)?;
+            expect_const_array_sizes(elem, consts, meta)
+        }
+        Type::ArrayConstExpr(elem, size_expr) => {
+            expect_usize_const_expr(size_expr, consts, meta)?;
+            expect_const_array_sizes(elem, consts, meta)
+        }
+        Type::Array(elem, _) => expect_const_array_sizes(elem, consts, meta),
+        Type::Tuple(fields) => {
+            for field in fields {
+                expect_const_array_sizes(field, consts, meta)?;
+            }
+            Ok(())
+        }
+        Type::Fn(params, ret) => {
+            for param in params {
+                expect_const_array_sizes(param, consts, meta)?;
+            }
+            expect_const_array_sizes(ret, consts, meta)
+        }
+        Type::Bool
+        | Type::Unsigned(_)
+        | Type::Signed(_)
+        | Type::UntypedTopLevelDefinition(_, _)
+        | Type::Struct(_)
+        | Type::Enum(_) => Ok(()),
     }
 }
 
